@@ -888,6 +888,11 @@ func (se *specEnv) call(e *SExpr) SVal {
 			}
 		}
 		return SVal{si.Mk(parts), x.T}
+	case "isstring":
+		// isstring(x): the dynamic type of the interface value x is string
+		x := se.eval(e.Args[0])
+		id := f.ctx.eng.sorts.TypeID(types.Typ[types.String])
+		return SVal{Eq(App("typeof", SInt, f.asTerm(x.V)), IntLit(int64(id))), tb}
 	case "typeid":
 		x := se.eval(e.Args[0])
 		return SVal{App("typeof", SInt, f.asTerm(x.V)), ti}
